@@ -23,6 +23,21 @@ def _args(engine, st, node):
             if isinstance(v, PyConst) and v.val == "<varargs>":
                 out.append(v)  # opaque pass-through of *args
                 continue
+            if isinstance(v, V) and isinstance(v.t, (Ty.Map, Ty.Set)):
+                # f(*d) where the path fixes len(d) == n (small): the n distinct keys of d, in some order
+                dom = v.c[0]
+                for n in (1, 2, 3):
+                    if engine.entailed(st, engine.card(dom) == n):
+                        ks = [engine.fresh(st, f"starkey{j}", node, Ty.IntS) for j in range(n)]
+                        only = z3.K(Ty.IntS, z3.BoolVal(False))
+                        for k in ks:
+                            only = z3.Store(only, k, True)
+                        st.assume(z3.And(z3.Distinct(*ks) if n > 1 else z3.BoolVal(True), dom == only))
+                        out.extend(V(Int, [k]) for k in ks)
+                        break
+                else:
+                    raise Unsupported("star-args call on a dict/set whose size the path does not fix (<= 3)")
+                continue
             raise Unsupported("star-args call on a non-tuple")
         out.append(engine.eval(st, a))
     return out
@@ -1028,6 +1043,21 @@ def comprehension(engine, st, node, kind):
             if isinstance(kv, V) and kv.term.eq(q):
                 return engine.alloc(outer, V(Ty.Set(Key), [z3.Lambda([q], guard)]))
             raise Unsupported("set comprehension re-keys its source")
+        if kind in ("list", "gen") and not conds:
+            # [f(k, v) for k, v in d.items()]: a dict is a FINITE collection and iterating it visits every
+            # key exactly once, in some order: positions 0..n-1 and keys are in bijection (keyat / pos)
+            val = engine.unbox_value(st, engine.eval(st, node.elt))
+            tag = f"{node.lineno}.{node.col_offset}!{engine.new_id()}"
+            n = z3.Int(f"cl!n!{tag}")
+            keyat = z3.Function(f"cl!keyat!{tag}", Ty.IntS, Ty.IntS)
+            pos = z3.Function(f"cl!pos!{tag}", Ty.IntS, Ty.IntS)
+            p_, k_ = z3.Int("cl!p"), z3.Int("cl!k")
+            outer.assume(n >= 0)
+            outer.assume(z3.ForAll([p_], z3.Implies(z3.And(0 <= p_, p_ < n), z3.And(it.dom[keyat(p_)], pos(keyat(p_)) == p_)), patterns=[keyat(p_)]))
+            pats = [pos(k_)] + ([it.dom[k_]] if z3.is_const(it.dom) and it.dom.decl().kind() == z3.Z3_OP_UNINTERPRETED else [])
+            outer.assume(z3.ForAll([k_], z3.Implies(it.dom[k_], z3.And(0 <= pos(k_), pos(k_) < n, keyat(pos(k_)) == k_)), patterns=pats))
+            arrs = [z3.Lambda([p_], z3.substitute(c, (q, keyat(p_)))) for c in val.c]
+            return engine.alloc(outer, V(Ty.List(val.t), [n] + arrs))
         raise Unsupported("list comprehension over unordered container")
     finally:
         engine.bound = old
